@@ -26,6 +26,10 @@ fn native_misc_registry() -> Vec<(&'static str, fn(&mut crate::src::EnumSrc))> {
         ("nencrypted_tamper", (|s: &mut crate::src::EnumSrc| crate::native_crypto::encrypted_tamper(s)) as fn(&mut crate::src::EnumSrc)),
         // n(nrt_library, "C01,C02", "hand-written Serialize/Deserialize impls: IpAddr, SocketAddr, Duration, SystemTime, chrono::DateTime<Utc>, PathBuf, String, char, Option, Result, tuples, arrays, Box<[T]>, Arc<[T]>, Arc<str>, Rc, RefCell, Cell, Box, Vec, VecDeque, BinaryHeap, BTreeMap, BTreeSet, HashMap, HashSet, parking_lot Mutex/RwLock, std Mutex, atomics, Range, PhantomData, (), bit_vec 0.6/0.8, bit_set 0.5/0.8, ArrayVec, ArrayString, SmallVec, IndexMap, IndexSet, f32/f64, i128/u128, isize/usize, Canary1, Cow", "80 fixed values with golden bytes");
         ("nrt_library", (|s: &mut crate::src::EnumSrc| crate::native_lib::rt_library(s)) as fn(&mut crate::src::EnumSrc)),
+        // n(nschema_library3, "C12", "hand-written WithSchema impls: parking_lot Mutex/RwLock, chrono::DateTime<Utc>, Duration", "4 type shapes, one small-scope byte varied");
+        ("nschema_library3", (|s: &mut crate::src::EnumSrc| crate::native_misc::schema_library3(s)) as fn(&mut crate::src::EnumSrc)),
+        // n(nschema_bitvec, "C12", "WithSchema for bit_vec::BitVec (0.6, 0.8) and bit_set::BitSet (0.5, 0.8); their Serialize impls", "one value per type");
+        ("nschema_bitvec", (|s: &mut crate::src::EnumSrc| crate::native_misc::schema_bitvec(s)) as fn(&mut crate::src::EnumSrc)),
         // n(ncrypto_stream, "C08,C01", "CryptoWriter::new; CryptoWriter::write; CryptoWriter::flush; Drop for CryptoWriter; CryptoReader::new; CryptoReader::read (real ring)", "payload lengths 0..230000 (around the 100000-byte chunk size), 4 write-piece sizes; inner reader chunk sizes 1..4096 x 5 Interrupted patterns x 4 read sizes; reader/writer failure at 7-9 offsets; short-writing inner writer");
         ("ncrypto_stream", (|s: &mut crate::src::EnumSrc| crate::native_crypto::crypto_stream(s)) as fn(&mut crate::src::EnumSrc)),
         // n(ncompressed_container, "C01,C07", "savefile::save_compressed; Serializer::save_impl (bzip2 branch); Deserializer::load_impl (bzip2 branch)", "small-scope documents; every cut for files <= 160 bytes, else 12 cut points");
@@ -67,6 +71,8 @@ fn native_misc_registry0() -> Vec<(&'static str, fn(&mut crate::src::EnumSrc))> 
         ("nmal_library", (|s: &mut crate::src::EnumSrc| crate::native_misc::malformed_library(s)) as fn(&mut crate::src::EnumSrc)),
         // n(nmal_bitvec, "C06", "<bit_vec::BitVec as Deserialize>::deserialize", "declared bit counts from the small u64 domain over a 4-byte storage");
         ("nmal_bitvec", (|s: &mut crate::src::EnumSrc| crate::collections::mal_bitvec_len(s)) as fn(&mut crate::src::EnumSrc)),
+        // n(nschema_library2, "C12", "hand-written WithSchema impls: Rc, Arc, Cow, BinaryHeap, HashSet, char, atomics, Range, SystemTime, IpAddr, PathBuf, 1-tuples, Cell, RefCell, Mutex, Arc<str>, Arc<[T]>, Box<[T]>, ArrayVec, ArrayString, SmallVec, IndexMap, IndexSet, nested Option, nested arrays, HashMap, i128, f64, isize, Canary1, PhantomData", "34 type shapes, one small-scope byte varied");
+        ("nschema_library2", (|s: &mut crate::src::EnumSrc| crate::native_misc::schema_library2(s)) as fn(&mut crate::src::EnumSrc)),
         // n(pairs_diff, "C05,C13,C15", "diff_schema; diff_enum; diff_fields; diff_primitive", "pairs of one-variant enums with <= 2 primitive fields; discriminants/widths from small domains");
         ("pairs_diff", (|s: &mut crate::src::EnumSrc| crate::schemapairs::diff_pairs(s)) as fn(&mut crate::src::EnumSrc)),
         // n(pairs_layout, "C11", "Schema::layout_compatible; SchemaEnum/Variant/Field::layout_compatible", "pairs of one-variant enums with <= 2 primitive fields, two offsets");
